@@ -397,11 +397,15 @@ func joinStates(a, b *State, cond *Bit) *State {
 			r.appends[k] = append([]Value(nil), v...)
 		}
 	}
+	inB := map[Bit]bool{}
+	for _, d := range b.conds {
+		inB[d] = true
+	}
+	seen := map[Bit]bool{}
 	for _, c := range a.conds {
-		for _, d := range b.conds {
-			if c == d {
-				r.conds = append(r.conds, c)
-			}
+		if inB[c] && !seen[c] {
+			seen[c] = true
+			r.conds = append(r.conds, c)
 		}
 	}
 	return r
@@ -551,13 +555,13 @@ func (e *Engine) runBlock(fr *frame, b *ssa.BasicBlock, st *State) {
 				refine(fs, cv.Cmp, false)
 			}
 			if !known && cv != nil && len(cv.B) == 1 && (cv.B[0].K == BSrc || cv.B[0].K == BNot) {
-				ts.conds = append(ts.conds, cv.B[0])
-				fs.conds = append(fs.conds, bitNot(cv.B[0]))
+				ts.conds = addCond(ts.conds, cv.B[0])
+				fs.conds = addCond(fs.conds, bitNot(cv.B[0]))
 			} else if !known && cv != nil && cv.Cmp != nil {
 				// a comparison of a whole source with a constant, as a named pseudo-bit
 				pb := Bit{K: BSrc, Src: fmt.Sprintf("cmp:%s%s%d", cv.Cmp.Src, cv.Cmp.Op, cv.Cmp.C)}
-				ts.conds = append(ts.conds, pb)
-				fs.conds = append(fs.conds, bitNot(pb))
+				ts.conds = addCond(ts.conds, pb)
+				fs.conds = addCond(fs.conds, bitNot(pb))
 			}
 			fr.setOut(b, b.Succs[0], ts)
 			fr.setOut(b, b.Succs[1], fs)
@@ -1545,4 +1549,13 @@ func nilnessByDominators(b *ssa.BasicBlock, v ssa.Value) ErrV {
 		return ErrV{Nil: !isNonNil, Known: true}
 	}
 	return ErrV{}
+}
+
+func addCond(cs []Bit, c Bit) []Bit {
+	for _, x := range cs {
+		if x == c {
+			return cs
+		}
+	}
+	return append(cs, c)
 }
